@@ -7,6 +7,11 @@ from common import bool_param, is_arg, spawn_closures
 from props.c09 import classify
 from props.c19 import is_worker_field, canon_atom
 
+
+def worker_param(fn, base):
+    """Is `base` the (non-self) parameter of this body that refers to the Worker? (by type, not by name)"""
+    return isinstance(base, tuple) and base[0] == "arg" and base[1] >= 2 and "Worker<" in fn.b["locals"][base[1]]["ty"]
+
 PROP = "C12"
 LEVEL = "other"
 UNDECIDED = [
@@ -348,7 +353,7 @@ def rule_snapshot_fields(ctx):
         if up.blocks[bi]["cleanup"]:
             continue
         e = up.expr_of_rvalue(s["rv"])
-        if e[0] == "call" and str(e[1]).endswith("Clone>::clone") and field_chain(e[2][0])[1] == ["items"] and field_chain(e[2][0])[0][2] == "worker":
+        if e[0] == "call" and str(e[1]).endswith("Clone>::clone") and field_chain(e[2][0])[1] == ["items"] and worker_param(up, field_chain(e[2][0])[0]):
             ctx.ok(site(up, bi, si), "snapshot.items := worker.items (the stream the matches index into)")
         else:
             ctx.violation("Snapshot::<T>::update|items-source|1", site(up, bi, si), "snapshot stream handle does not come from the worker whose matches are copied: %s" % show(e))
@@ -358,7 +363,7 @@ def rule_snapshot_fields(ctx):
             d = field_chain(up.expr_of_operand(t["args"][0]))
             s_ = field_chain(up.expr_of_operand(t["args"][1]))
             if d[1] == [nm]:
-                if s_[1] == [src] and s_[0][0] == "arg" and s_[0][2] == "worker":
+                if s_[1] == [src] and worker_param(up, s_[0]):
                     ctx.ok(site(up, bi), "snapshot.%s := worker.%s" % (nm, src))
                 else:
                     ctx.violation("Snapshot::<T>::update|%s-source|1" % nm, site(up, bi), "snapshot.%s copied from %s" % (nm, s_[1]))
